@@ -161,24 +161,19 @@ Theorem untouched_only_if_equal :
     Qabs (s2 - d2) < (d3 - d1) / inject_Z dh / 10 /\ Qabs (s3 - d3) < (d3 - d1) / inject_Z dh / 10.
 Proof. exact Geo_proofs.untouched_only_if_equal. Qed.
 
-(* WMTS: for KVP GetTile, KVP GetFeatureInfo and RESTful GetTile the bbox used is the rectangle that the address
-   (TileCol, TileRow counted from the north-west corner) denotes, on grids numbered from either corner, for every
-   level whose tiled area ends at the top of the grid bbox (the condition under which a grid is offered through
-   WMTS); so KVP GetFeatureInfo is forwarded for the tile that GetTile serves (F6, repaired).  The same holds for
-   RESTful GetFeatureInfo only on grids numbered from the north ... *)
+(* WMTS: for all four request kinds (KVP / RESTful, GetTile / GetFeatureInfo) the bbox used is the rectangle that
+   the address (TileCol, TileRow counted from the north-west corner) denotes, on grids numbered from either corner,
+   for every level whose tiled area ends at the top of the grid bbox (the condition under which a grid is offered
+   through WMTS). *)
 Theorem wmts_featureinfo_bbox :
   forall g r col row l,
-    r <> RestFeatureInfo \/ ul g = true ->
     misalign g l = 0%Z ->
     wmts_bbox g r col row l =
       match limit_tile g col row l with Some _ => Some (wmts_rectangle g col row l) | None => None end.
 Proof. exact wmts_bbox_is_rectangle. Qed.
 
-(* ... and is false for RESTful GetFeatureInfo on a grid numbered from the south (known finding
-   fi:wmts-rest-wrong-tile, proposed_fixes/C01-wmts-rest-featureinfo-origin.md): witness. *)
-Theorem wmts_rest_featureinfo_refuted :
-  exists g col row l,
-    wf g /\ valid_level g l = true /\ misalign g l = 0%Z /\
-    wmts_bbox g RestTile col row l = Some (wmts_rectangle g col row l) /\
-    wmts_bbox g RestFeatureInfo col row l <> Some (wmts_rectangle g col row l).
-Proof. exact Geo_proofs.wmts_rest_featureinfo_refuted. Qed.
+(* GetFeatureInfo (KVP or RESTful) is forwarded with the bbox of the tile that GetTile serves for the same
+   address, on every grid (F6 and its RESTful residual, both repaired). *)
+Theorem wmts_featureinfo_uses_served_tile :
+  forall g r r' col row l, wmts_bbox g r col row l = wmts_bbox g r' col row l.
+Proof. exact Geo_proofs.wmts_featureinfo_uses_served_tile. Qed.
